@@ -115,6 +115,12 @@ func Held(mu any) bool {
 	panic(stop{"unsupported: Held on this lock type in native replay"})
 }
 
+// Native reports whether the harness runs natively (replay) rather than symbolically.
+func Native() bool { return true }
+
+// NativeUnsupported ends a native replay that cannot be faithful (e.g. it would need a symbolic-only stub).
+func NativeUnsupported(why string) { panic(stop{"unsupported: " + why}) }
+
 // ReplaceSym replaces a function only in the symbolic run; natively the real function runs.
 func ReplaceSym(target string, fn any) {}
 
